@@ -305,6 +305,51 @@ def impl_solve(args):
     return out
 
 
+def edge_instances(rng):
+    """constraints no assignment of POSITIVE integers satisfies although integers >= 0 (or reals) would: a part of a concatenation
+    forced to 0; keyword sizes that are not positive integers.  solve_* / operations must fail with RankError / AxisSizeError
+    (ValueError for a size that is no positive integer), matches must answer False -> (description, shapes, kwargs, kind)"""
+    nm = rng.sample(["a", "b", "c", "d", "h", "w", "p", "q"], 4)
+    A, B, C, D = nm
+    n1, n2, n3 = rng.choice([2, 3, 4]), rng.choice([2, 3]), rng.choice([1, 2])
+    out = [
+        (f"({A} + {B}) {C}", [[n1, n2]], {A: n1}, "concatenation_part_forced_to_zero"),
+        (f"{C} ({A} + {B} + {D})", [[n2, n1 + n3]], {A: n1, B: n3}, "concatenation_part_forced_to_zero"),
+        (f"({A} + {B})...", [[n1, n1 + 1]], {A: (n1 - 1, n1 + 1)}, "concatenation_part_forced_to_zero"),
+        (f"{A} {B}", [[n1, n2]], {A: -n1}, "size_not_a_positive_integer"),
+        (f"{A}... {B}", [[n1, n1, n2]], {A: (n1, -n1)}, "size_not_a_positive_integer"),
+        (f"({A} {B}) {C}", [[n1 * n2, n3]], {A: n1 + 0.5}, "size_not_a_positive_integer"),
+        (f"({A} {B}) {C}", [[n1 * n2, n3]], {A: 0}, "size_not_a_positive_integer"),
+    ]
+    return out
+
+
+def run_edges(ctx):
+    import einx
+    n = 0
+    for _ in range(6 if ctx.tier == "quick" else 200):
+        for desc, shapes, kw, kind in edge_instances(ctx.rng):
+            tensors = [types.SimpleNamespace(shape=tuple(s)) for s in shapes]
+            rec = {"description": desc, "shapes": shapes, "kwargs": {k: repr(v) for k, v in kw.items()}}
+            allowed = ("RankError", "AxisSizeError") + (("ValueError",) if kind == "size_not_a_positive_integer" else ())
+            for fn in ("solve_shapes", "solve_axes", "matches", "id"):
+                n += 1
+                try:
+                    if fn == "id":
+                        r = common.with_alarm(40, einx.id, desc + " -> " + desc, *[np.zeros(s) for s in shapes], **kw)
+                    else:
+                        r = common.with_alarm(40, getattr(einx, fn), desc, *tensors, **kw)
+                    if fn != "matches" or r is not False:
+                        ctx.report({"kind": "accepts_unsatisfiable_constraints", "fn": fn, "case": kind}, {**rec, "reported": str(r)[:200]})
+                except BaseException as e:  # noqa: BLE001
+                    cls = common.classify_exc(e)
+                    if fn == "matches":
+                        ctx.report({"kind": "matches_raises_instead_of_false", "exc": cls, "case": kind}, {**rec, "message": str(e)[:200]})
+                    elif cls not in allowed:
+                        ctx.report({"kind": "unexpected_exception", "fn": fn, "exc": cls, "site": common.exc_site(e), "case": kind}, {**rec, "message": str(e)[:200]})
+    return n
+
+
 def expected_from(p, sigma, names, counts):
     """shapes and axes that follow from a full assignment (dict var id -> value)"""
     inv = {v: k for k, v in names.ids.items()}
@@ -569,8 +614,9 @@ def run(ctx):
             ctx.report({"kind": "reported_values_violate_constraints"}, {**rec, "reported": reported, "equations": eqs})
     for p, inst in list(zip(probs, insts))[:4]:
         ctx.sample({"description": inst[0], "shapes": inst[1], "kwargs": inst[2], "variant": p["variant"]})
+    stats["edge_instances"] = run_edges(ctx)
     ctx.coverage.update({
-        "evaluations": len(probs) * 3 + stats["op_level_calls"],
+        "evaluations": len(probs) * 3 + stats["op_level_calls"] + stats["edge_instances"],
         "rule": "generated (description, shapes-or-None, keyword subset) instances; variants consistent / contradicted keyword / contradicted "
                 "dimension / non-dividing; 20% with lengths up to 2**40; 35% with one or two named ellipses (possibly both in one tensor); 8% "
                 "systems of sums and products with several solutions; einx.id with every tensor's root items reversed as operation-level probe; "
